@@ -1,13 +1,14 @@
 (* Props/LeafBridge.v -- the leaf bridge: the leaf hypotheses of the core theorems (C01 C13 C03 C06) are THEOREMS of
    the scalar model of C04.  Theorems only (each closed by [exact]), examples, Print Assumptions.
 
-   bridged enc dec kind_of rts ev rt0 base : Core.runtime
+   bridged C kind_of rts ev rt0 base : Core.runtime
        leaf_u s / leaf_m s run the scalar routines of Model/Scalars.v / the scalar marshallers of Model/LeafBridge.v
-       (table [leaf_table]) on the value the atom stands for, for ANY atom coding with  dec (enc v) = Some v,
+       (table [leaf_table]) on the value the atom / key stands for, for ANY coding C with coding_law C,
        ANY numbering [kind_of] of leaf types, ANY interpreter [rts s] seen from leaf type s, ANY [base] runtime
        for what is not a leaf routine.
    lv strict s v : atom v stands for a value of the class of leaf type s inside its range
        (valid_date / valid_dt / valid_tm / td_in_range / enum_value_ok; strict: datetime / time with fold 0).
+   C : coding = (enc, dec, key_text, key_of): atoms for scalar values, PKey f for the str that is field name f.
    What remains assumed is visible in each statement: Scalars.RuntimeLaws (interpreter: int(str(z)) = z, pendulum
    parses what isoformat prints, ...), FoldLaws (the parsers answer with fold 0), LoadLaws (serdes.load hands a UUID
    back), Utf8Total.  [res]/[Ok] unqualified are the scalar model's; the core model's are Core.xxx. *)
@@ -59,125 +60,117 @@ Proof. exact enum_value_ok_of_text. Qed.
 
 (* ================================================================== the law records of the core theorems *)
 (* RoundLaws (C01): exact equality of atoms *)
-Theorem LB_round_laws : forall enc dec kind_of rts ev rt0 base, coding_law enc dec ->
+Theorem LB_round_laws : forall C kind_of rts ev rt0 base, coding_law C ->
   (forall s, RuntimeLaws (rts s)) -> (forall s, FoldLaws (rts s)) ->
-  CoreC01.RoundLaws (bridged enc dec kind_of rts ev rt0 base) (lv enc dec kind_of rts ev true).
+  CoreC01.RoundLaws (bridged C kind_of rts ev rt0 base) (lv C kind_of rts ev true).
 Proof. exact bridged_round_laws. Qed.
 (* the same round trip on the lax range (fold 1 included), up to the fold, from RuntimeLaws alone *)
-Theorem LB_leaf_round_sim : forall enc dec kind_of rts ev rt0 base, coding_law enc dec ->
+Theorem LB_leaf_round_sim : forall C kind_of rts ev rt0 base, coding_law C ->
   (forall s, RuntimeLaws (rts s)) ->
-  forall s v w, lv enc dec kind_of rts ev false s v = true ->
-  Core.leaf_m (bridged enc dec kind_of rts ev rt0 base) s v = Core.Ok w ->
-  exists v', Core.leaf_u (bridged enc dec kind_of rts ev rt0 base) s w = Core.Ok v' /\ sim_pv enc dec v v'.
+  forall s v w, lv C kind_of rts ev false s v = true ->
+  Core.leaf_m (bridged C kind_of rts ev rt0 base) s v = Core.Ok w ->
+  exists v', Core.leaf_u (bridged C kind_of rts ev rt0 base) s w = Core.Ok v' /\ sim_pv C v v'.
 Proof. exact bridged_leaf_round_sim. Qed.
 (* leaf_m_inj (C01_keys_of_leaf_law) *)
-Theorem LB_leaf_m_inj : forall enc dec kind_of rts ev rt0 base, coding_law enc dec ->
+Theorem LB_leaf_m_inj : forall C kind_of rts ev rt0 base, coding_law C ->
   (forall s, RuntimeLaws (rts s)) -> (forall s, FoldLaws (rts s)) ->
   (forall a b, Core.atom_eq base a b = true -> a = b) ->
-  CoreC01.leaf_m_inj (bridged enc dec kind_of rts ev rt0 base) (lv enc dec kind_of rts ev true).
+  CoreC01.leaf_m_inj (bridged C kind_of rts ev rt0 base) (lv C kind_of rts ev true).
 Proof. exact bridged_leaf_m_inj. Qed.
 (* NoneLaws: NoneTypeUnmarshaller *)
-Theorem LB_none_laws : forall enc dec kind_of rts ev rt0 base, coding_law enc dec ->
+Theorem LB_none_laws : forall C kind_of rts ev rt0 base, coding_law C ->
   Utf8Total rt0 -> (forall e, Core.suppressed base (exn_map e) = true) ->
-  CoreValid.NoneLaws (bridged enc dec kind_of rts ev rt0 base).
+  CoreValid.NoneLaws (bridged C kind_of rts ev rt0 base).
 Proof. exact bridged_none_laws. Qed.
 (* PassLaws / IdemLaws (C13): case analysis over the routines; no interpreter law *)
-Theorem LB_pass_laws : forall enc dec kind_of rts ev rt0 base, coding_law enc dec -> forall strict,
+Theorem LB_pass_laws : forall C kind_of rts ev rt0 base, coding_law C -> forall strict,
   Utf8Total rt0 -> (forall e, Core.suppressed base (exn_map e) = true) -> (forall s, LoadLaws (rts s)) ->
-  CoreValid.PassLaws (bridged enc dec kind_of rts ev rt0 base) (lv enc dec kind_of rts ev strict).
+  CoreValid.PassLaws (bridged C kind_of rts ev rt0 base) (lv C kind_of rts ev strict).
 Proof. exact bridged_pass_laws. Qed.
-Theorem LB_idem_laws : forall enc dec kind_of rts ev rt0 base, coding_law enc dec ->
+Theorem LB_idem_laws : forall C kind_of rts ev rt0 base, coding_law C ->
   Utf8Total rt0 -> (forall e, Core.suppressed base (exn_map e) = true) -> (forall s, LoadLaws (rts s)) ->
-  CoreValid.IdemLaws (bridged enc dec kind_of rts ev rt0 base).
+  CoreValid.IdemLaws (bridged C kind_of rts ev rt0 base).
 Proof. exact bridged_idem_laws. Qed.
 (* LeafLaws (C03) and MarshalLaws (C06): nothing assumed but the coding law *)
-Theorem LB_leaf_laws : forall enc dec kind_of rts ev rt0 base, coding_law enc dec ->
-  CoreC03.LeafLaws (bridged enc dec kind_of rts ev rt0 base) (leaf_class_ok enc dec kind_of).
+Theorem LB_leaf_laws : forall C kind_of rts ev rt0 base, coding_law C ->
+  CoreC03.LeafLaws (bridged C kind_of rts ev rt0 base) (leaf_class_ok C kind_of).
 Proof. exact bridged_leaf_laws. Qed.
-Theorem LB_marshal_laws : forall enc dec kind_of rts ev rt0 base, coding_law enc dec -> forall strict,
-  CoreC06.MarshalLaws (bridged enc dec kind_of rts ev rt0 base) (prim_atom enc dec) (robust_leaf kind_of)
-    (robust_leaf kind_of) (lv enc dec kind_of rts ev strict) no_literal no_member.
+Theorem LB_marshal_laws : forall C kind_of rts ev rt0 base, coding_law C -> forall strict,
+  CoreC06.MarshalLaws (bridged C kind_of rts ev rt0 base) (prim_atom C) (robust_leaf kind_of)
+    (robust_leaf kind_of) (lv C kind_of rts ev strict) no_literal no_member.
 Proof. exact bridged_marshal_laws. Qed.
 
 (* ================================================================== the composite theorems, leaf hypotheses discharged *)
-Theorem C01_roundtrip_from_interpreter_laws : forall enc dec kind_of rts ev rt0 base, coding_law enc dec ->
+Theorem C01_roundtrip_from_interpreter_laws : forall C kind_of rts ev rt0 base, coding_law C ->
   (forall s, RuntimeLaws (rts s)) -> (forall s, FoldLaws (rts s)) ->
   forall E n fuel T v w, fuel <= n ->
-  CoreC01.valid (bridged enc dec kind_of rts ev rt0 base) (lv enc dec kind_of rts ev true) E n T v = true ->
-  CoreC01.c01_guard (bridged enc dec kind_of rts ev rt0 base) E n T v = true ->
-  CoreC01.union_unamb (bridged enc dec kind_of rts ev rt0 base) (lv enc dec kind_of rts ev true) E n T v = true ->
-  Core.mar (bridged enc dec kind_of rts ev rt0 base) E fuel T v = Core.Ok w ->
-  exists m, forall f, f >= m -> Core.unm (bridged enc dec kind_of rts ev rt0 base) E f T w = Core.Ok v.
+  CoreC01.valid (bridged C kind_of rts ev rt0 base) (lv C kind_of rts ev true) E n T v = true ->
+  CoreC01.c01_guard (bridged C kind_of rts ev rt0 base) E n T v = true ->
+  CoreC01.union_unamb (bridged C kind_of rts ev rt0 base) (lv C kind_of rts ev true) E n T v = true ->
+  Core.mar (bridged C kind_of rts ev rt0 base) E fuel T v = Core.Ok w ->
+  exists m, forall f, f >= m -> Core.unm (bridged C kind_of rts ev rt0 base) E f T w = Core.Ok v.
 Proof.
-  intros enc dec kind_of rts ev rt0 base CL HL HF E. exact (C01.C01_roundtrip _ _ E (bridged_round_laws enc dec kind_of rts ev rt0 base CL HL HF)).
+  intros C kind_of rts ev rt0 base CL HL HF E. exact (C01.C01_roundtrip _ _ E (bridged_round_laws C kind_of rts ev rt0 base CL HL HF)).
 Qed.
 
-Theorem C01_union_fixpoint_from_interpreter_laws : forall enc dec kind_of rts ev rt0 base, coding_law enc dec ->
+Theorem C01_union_fixpoint_from_interpreter_laws : forall C kind_of rts ev rt0 base, coding_law C ->
   (forall s, RuntimeLaws (rts s)) -> (forall s, FoldLaws (rts s)) ->
   forall E n fuel T v m, fuel <= n ->
-  CoreC01.fix_ok (bridged enc dec kind_of rts ev rt0 base) (lv enc dec kind_of rts ev true) E n T v = true ->
-  Core.mar (bridged enc dec kind_of rts ev rt0 base) E fuel T v = Core.Ok m ->
-  exists v', (forall f, f >= n -> Core.unm (bridged enc dec kind_of rts ev rt0 base) E f T m = Core.Ok v') /\
-             (forall f, f >= n -> Core.mar (bridged enc dec kind_of rts ev rt0 base) E f T v' = Core.Ok m).
+  CoreC01.fix_ok (bridged C kind_of rts ev rt0 base) (lv C kind_of rts ev true) E n T v = true ->
+  Core.mar (bridged C kind_of rts ev rt0 base) E fuel T v = Core.Ok m ->
+  exists v', (forall f, f >= n -> Core.unm (bridged C kind_of rts ev rt0 base) E f T m = Core.Ok v') /\
+             (forall f, f >= n -> Core.mar (bridged C kind_of rts ev rt0 base) E f T v' = Core.Ok m).
 Proof.
-  intros enc dec kind_of rts ev rt0 base CL HL HF E. exact (C01.C01_union_fixpoint _ _ E (bridged_round_laws enc dec kind_of rts ev rt0 base CL HL HF)).
+  intros C kind_of rts ev rt0 base CL HL HF E. exact (C01.C01_union_fixpoint _ _ E (bridged_round_laws C kind_of rts ev rt0 base CL HL HF)).
 Qed.
 
 (* pass-through and idempotence need NO interpreter law: only that serdes.load hands a UUID back and that the UTF-8
    decoder answers *)
-Theorem C13_passthrough_from_scalar_model : forall enc dec kind_of rts ev rt0 base, coding_law enc dec -> forall strict,
+Theorem C13_passthrough_from_scalar_model : forall C kind_of rts ev rt0 base, coding_law C -> forall strict,
   Utf8Total rt0 -> (forall e, Core.suppressed base (exn_map e) = true) -> (forall s, LoadLaws (rts s)) ->
   forall E, CoreValid.wf_env E ->
   forall n T v, CoreValid.optional_only E n T = true ->
-  CoreValid.valid (lv enc dec kind_of rts ev strict) (bridged enc dec kind_of rts ev rt0 base) E n T v = true ->
-  exists m, forall fuel, m <= fuel -> Core.unm (bridged enc dec kind_of rts ev rt0 base) E fuel T v = Core.Ok v.
+  CoreValid.valid (lv C kind_of rts ev strict) (bridged C kind_of rts ev rt0 base) E n T v = true ->
+  exists m, forall fuel, m <= fuel -> Core.unm (bridged C kind_of rts ev rt0 base) E fuel T v = Core.Ok v.
 Proof.
-  intros enc dec kind_of rts ev rt0 base CL strict Ht Hs HLd E. exact (C13.C13_passthrough _ E _ (bridged_pass_laws enc dec kind_of rts ev rt0 base CL strict Ht Hs HLd)).
+  intros C kind_of rts ev rt0 base CL strict Ht Hs HLd E. exact (C13.C13_passthrough _ E _ (bridged_pass_laws C kind_of rts ev rt0 base CL strict Ht Hs HLd)).
 Qed.
 
-Theorem C13_idempotent_from_scalar_model : forall enc dec kind_of rts ev rt0 base, coding_law enc dec ->
+Theorem C13_idempotent_from_scalar_model : forall C kind_of rts ev rt0 base, coding_law C ->
   Utf8Total rt0 -> (forall e, Core.suppressed base (exn_map e) = true) -> (forall s, LoadLaws (rts s)) ->
-  forall E, CoreValid.wf_env E -> CoreValid.DefaultsConform (bridged enc dec kind_of rts ev rt0 base) E ->
+  forall E, CoreValid.wf_env E -> CoreValid.DefaultsConform (bridged C kind_of rts ev rt0 base) E ->
   forall T, (forall k, CoreValid.optional_only E k T = true) ->
-  forall n x y, Core.unm (bridged enc dec kind_of rts ev rt0 base) E n T x = Core.Ok y ->
-  exists m, forall fuel, m <= fuel -> Core.unm (bridged enc dec kind_of rts ev rt0 base) E fuel T y = Core.Ok y.
+  forall n x y, Core.unm (bridged C kind_of rts ev rt0 base) E n T x = Core.Ok y ->
+  exists m, forall fuel, m <= fuel -> Core.unm (bridged C kind_of rts ev rt0 base) E fuel T y = Core.Ok y.
 Proof.
-  intros enc dec kind_of rts ev rt0 base CL Ht Hs HLd E. exact (C13.C13_idempotent _ E (bridged_idem_laws enc dec kind_of rts ev rt0 base CL Ht Hs HLd)).
+  intros C kind_of rts ev rt0 base CL Ht Hs HLd E. exact (C13.C13_idempotent _ E (bridged_idem_laws C kind_of rts ev rt0 base CL Ht Hs HLd)).
 Qed.
 
 (* conformance and wire output: nothing at all is assumed of the interpreter *)
-Theorem C03_conforms_from_scalar_model : forall enc dec kind_of rts ev rt0 base, coding_law enc dec ->
+Theorem C03_conforms_from_scalar_model : forall C kind_of rts ev rt0 base, coding_law C ->
   forall E, CoreC03.wf_env E ->
-  forall fuel T x v, Core.unm (bridged enc dec kind_of rts ev rt0 base) E fuel T x = Core.Ok v ->
-  exists n, CoreC03.conforms (bridged enc dec kind_of rts ev rt0 base) E (leaf_class_ok enc dec kind_of) n T v = true.
+  forall fuel T x v, Core.unm (bridged C kind_of rts ev rt0 base) E fuel T x = Core.Ok v ->
+  exists n, CoreC03.conforms (bridged C kind_of rts ev rt0 base) E (leaf_class_ok C kind_of) n T v = true.
 Proof.
-  intros enc dec kind_of rts ev rt0 base CL E. exact (C03.C03_conforms _ E _ (bridged_leaf_laws enc dec kind_of rts ev rt0 base CL)).
+  intros C kind_of rts ev rt0 base CL E. exact (C03.C03_conforms _ E _ (bridged_leaf_laws C kind_of rts ev rt0 base CL)).
 Qed.
 
-Theorem C06_wire_from_scalar_model : forall enc dec kind_of rts ev rt0 base, coding_law enc dec -> forall strict E R F T,
+Theorem C06_wire_from_scalar_model : forall C kind_of rts ev rt0 base, coding_law C -> forall strict E R F T,
   CoreC06.fully_annotated E (robust_leaf kind_of) (robust_leaf kind_of) true R F T ->
   forall m n v w,
-  CoreC06.valid (bridged enc dec kind_of rts ev rt0 base) E (lv enc dec kind_of rts ev strict) n T v = true ->
-  Core.mar (bridged enc dec kind_of rts ev rt0 base) E m T v = Core.Ok w ->
-  CoreC06.is_wire (prim_atom enc dec) w = true.
+  CoreC06.valid (bridged C kind_of rts ev rt0 base) E (lv C kind_of rts ev strict) n T v = true ->
+  Core.mar (bridged C kind_of rts ev rt0 base) E m T v = Core.Ok w ->
+  CoreC06.is_wire (prim_atom C) w = true.
 Proof.
-  intros enc dec kind_of rts ev rt0 base CL strict E R F T. exact (C06.C06_wire _ E _ _ _ R F _ _ _ (bridged_marshal_laws enc dec kind_of rts ev rt0 base CL strict) T).
+  intros C kind_of rts ev rt0 base CL strict E R F T. exact (C06.C06_wire _ E _ _ _ R F _ _ _ (bridged_marshal_laws C kind_of rts ev rt0 base CL strict) T).
 Qed.
 
 (* ================================================================== guards are necessary *)
 (* RoundLaws with exact equality on the LAX range: false.  datetime(2020,1,1,17,0,0,999999,+05:30,fold=1) is written
    without its fold and read back with fold 0 (Python's == ignores the fold: the statement of C01 is not violated) *)
-Definition LB_round_full : Prop :=
-  forall enc dec kind_of rts ev rt0 base, coding_law enc dec ->
-  (forall s, RuntimeLaws (rts s)) -> (forall s, FoldLaws (rts s)) ->
-  CoreC01.RoundLaws (bridged enc dec kind_of rts ev rt0 base) (lv enc dec kind_of rts ev false).
+Definition LB_round_full : Prop := round_full_stmt.
 Theorem LB_refuted_round_exact_with_fold : ~ LB_round_full.
-Proof.
-  intros F. destruct (ex_fold_refutes std_enc std_dec std_coding_law) as (H1 & H2 & H3 & H4).
-  exact (H4 (eq_sym (f_equal (fun r => match r with Core.Ok v => v | _ => Core.PAtom 0 end)
-    (eq_trans (eq_sym (CoreC01.leaf_round _ _ (F std_enc std_dec ex_kinds (fun _ => toy_rt) ex_ev toy_rt ex_base std_coding_law
-       (fun _ => toy_laws) (fun _ => toy_fold_laws)) 5 _ _ H1 H2)) H3)))).
-Qed.
+Proof. exact refute_round_full. Qed.
 Theorem LB_refuted_fold_scalar :
   in_kind toy_rt ex_ev false LDateTime (VDateTime ex_dt_fold1) = true /\
   in_kind toy_rt ex_ev true LDateTime (VDateTime ex_dt_fold1) = false /\
@@ -210,33 +203,35 @@ Theorem LB_zero_duration_roundtrips :
 Proof. exact zero_duration_facts. Qed.
 
 (* ================================================================== non-vacuity *)
-Example LB_coding_law_satisfiable : coding_law std_enc std_dec.
+Example LB_coding_law_satisfiable : coding_law std_coding.
 Proof. exact std_coding_law. Qed.
 Example LB_laws_satisfiable :
   RuntimeLaws toy_rt /\ FoldLaws toy_rt /\ LoadLaws toy_rt /\ Utf8Total toy_rt /\
   (forall e, Core.suppressed ex_base (exn_map e) = true).
 Proof. exact (conj toy_laws (conj toy_fold_laws (conj toy_load_laws (conj toy_utf8_total ex_base_suppresses)))). Qed.
 
-(* list[tuple[int, date, timedelta, Decimal, E, datetime]] on the toy interpreter with the concrete coding: the
-   hypotheses of C01_roundtrip_from_interpreter_laws hold, the model computes the wire form shown, and the conclusion
-   of the theorem is what the model computes *)
+(* list[tuple[int, date, timedelta, Decimal, E, datetime, str, str]] on the toy interpreter with the concrete coding (the
+   str "kids" is a field name, hence PKey 0): the hypotheses of C01_roundtrip_from_interpreter_laws hold, the model
+   computes the wire form shown, and the conclusion of the theorem is what the model computes *)
 Example LB_C01_instance :
-  let brt := bridged std_enc std_dec ex_kinds (fun _ => toy_rt) ex_ev toy_rt ex_base in
-  let lvs := lv std_enc std_dec ex_kinds (fun _ => toy_rt) ex_ev true in
-  CoreC01.valid brt lvs no_env 4 ex_T (ex_pv std_enc Core.KTuple ex_vals) = true /\
-  CoreC01.c01_guard brt no_env 4 ex_T (ex_pv std_enc Core.KTuple ex_vals) = true /\
-  CoreC01.union_unamb brt lvs no_env 4 ex_T (ex_pv std_enc Core.KTuple ex_vals) = true /\
-  Core.mar brt no_env 4 ex_T (ex_pv std_enc Core.KTuple ex_vals) = Core.Ok (ex_pv std_enc Core.KList ex_wire) /\
-  Core.unm brt no_env 4 ex_T (ex_pv std_enc Core.KList ex_wire) = Core.Ok (ex_pv std_enc Core.KTuple ex_vals) /\
+  let brt := bridged std_coding ex_kinds (fun _ => toy_rt) ex_ev toy_rt ex_base in
+  let lvs := lv std_coding ex_kinds (fun _ => toy_rt) ex_ev true in
+  CoreC01.valid brt lvs no_env 4 ex_T (ex_pv std_coding Core.KTuple ex_vals) = true /\
+  CoreC01.c01_guard brt no_env 4 ex_T (ex_pv std_coding Core.KTuple ex_vals) = true /\
+  CoreC01.union_unamb brt lvs no_env 4 ex_T (ex_pv std_coding Core.KTuple ex_vals) = true /\
+  Core.mar brt no_env 4 ex_T (ex_pv std_coding Core.KTuple ex_vals) = Core.Ok (ex_pv std_coding Core.KList ex_wire) /\
+  Core.unm brt no_env 4 ex_T (ex_pv std_coding Core.KList ex_wire) = Core.Ok (ex_pv std_coding Core.KTuple ex_vals) /\
+  encp std_coding (VText CStr "kids") = Core.PKey 0 /\
   exists m, forall f, f >= m ->
-    Core.unm brt no_env f ex_T (ex_pv std_enc Core.KList ex_wire) = Core.Ok (ex_pv std_enc Core.KTuple ex_vals).
+    Core.unm brt no_env f ex_T (ex_pv std_coding Core.KList ex_wire) = Core.Ok (ex_pv std_coding Core.KTuple ex_vals).
 Proof.
-  exact (let H := ex_hyps std_enc std_dec std_coding_law in
+  exact (let H := ex_hyps std_enc std_dec std_dec_enc in
          conj (proj1 H) (conj (proj1 (proj2 H)) (conj (proj2 (proj2 H))
-         (conj (ex_mar std_enc std_dec std_coding_law) (conj (ex_unm std_enc std_dec std_coding_law)
-         (C01_roundtrip_from_interpreter_laws std_enc std_dec ex_kinds (fun _ => toy_rt) ex_ev toy_rt ex_base
+         (conj (ex_mar std_enc std_dec std_dec_enc) (conj (ex_unm std_enc std_dec std_dec_enc)
+         (conj (proj1 (ex_key std_enc std_dec))
+         (C01_roundtrip_from_interpreter_laws std_coding ex_kinds (fun _ => toy_rt) ex_ev toy_rt ex_base
             std_coding_law (fun _ => toy_laws) (fun _ => toy_fold_laws) no_env 4 4 ex_T _ _ (le_n 4)
-            (proj1 H) (proj1 (proj2 H)) (proj2 (proj2 H)) (ex_mar std_enc std_dec std_coding_law))))))).
+            (proj1 H) (proj1 (proj2 H)) (proj2 (proj2 H)) (ex_mar std_enc std_dec std_dec_enc)))))))).
 Qed.
 
 Print Assumptions LB_unm_results_of_class.
